@@ -8,6 +8,8 @@ mod p_adsr;
 mod p_clamp;
 mod p_clamp_ext;
 mod p_lfo;
+mod p_midi;
+mod p_quant;
 mod runner;
 mod strat;
 
@@ -62,6 +64,14 @@ fn dispatch(id: &str, quick: bool, seed: u64) -> Option<(Outcome, u64)> {
         "C01" => p_adsr::c01(quick, seed),
         "C02" => p_adsr::c02(quick, seed),
         "C03" => p_adsr::c03(quick, seed),
+        "C04" => p_midi::c04(quick, seed),
+        "C05" => p_midi::c05(quick, seed),
+        "C06" => p_midi::c06(quick, seed),
+        "C18" => p_midi::c18(quick, seed),
+        "C07" => p_quant::c07(quick, seed),
+        "C08" => p_quant::c08(quick, seed),
+        "C09" => p_quant::c09(quick, seed),
+        "C19" => p_quant::c19(quick, seed),
         "C10" => p_lfo::c10(quick, seed),
         "C11" => p_lfo::c11(quick, seed),
         "C12" => p_lfo::c12(quick, seed),
@@ -72,6 +82,8 @@ fn dispatch(id: &str, quick: bool, seed: u64) -> Option<(Outcome, u64)> {
         "C10" => p_lfo::c10_nontrivial(&o),
         "C12" => p_lfo::c12_nontrivial(&o),
         "C20" => p_clamp::c20_nontrivial(&o),
+        "C08" => p_quant::c08_nontrivial(&o),
+        "C18" => p_midi::c18_nontrivial(&o),
         _ => o.stats.nontrivial.len() as u64,
     };
     Some((o, nt))
@@ -108,6 +120,8 @@ fn replay_engine(property: &str, engine: &str, case: &Value) -> Result<(), Failu
             p_lfo::c12_walk(&w, &mut st).map(|_| ())
         }
         e if e.starts_with("c20_") => p_clamp::replay(e, case),
+        e if e.starts_with("quant_") => p_quant::replay(property, e, case),
+        e if e.starts_with("midi_") => p_midi::replay(property, e, case),
         _ => Err(Failure::new("replay_unknown_engine", 0, format!("no replay handler for engine {}", engine))),
     }
 }
@@ -139,7 +153,9 @@ fn main() {
         std::process::exit(2);
     }
     // panics inside the code under test are caught and reported by the oracles; keep stderr quiet
-    std::panic::set_hook(Box::new(|_| {}));
+    if std::env::var("VERIF_PANIC_TRACE").is_err() {
+        std::panic::set_hook(Box::new(|_| {}));
+    }
 
     if args[1] == "replay" {
         let text = match std::fs::read_to_string(&args[2]) {
